@@ -21,7 +21,8 @@ Trace lines are tuples (time, loop_iteration, kind, subject, ...):
   sdb j | sde j | sdc j                                          atomic job co_shutdown begin / end / cancelled
   snap {name: [idle, sched, running, done, res]} | topend | lingered
 """
-import asyncio, contextvars, heapq, io, sys, time
+import asyncio, contextvars, heapq, io, sys, time, warnings
+warnings.simplefilter("ignore", RuntimeWarning)
 from aj_common import REPO
 sys.path.insert(0, REPO)
 import asynciojobs                                         # noqa: E402
@@ -29,12 +30,19 @@ from asynciojobs import AbstractJob, Job, Scheduler, PureScheduler   # noqa: E40
 
 LOG = []
 CUR = contextvars.ContextVar("cur_sched", default=None)
-STATE = {"loop": None, "jobs": {}, "tasks": [], "taskinfo": {}, "active": False}
+STATE = {"loop": None, "jobs": {}, "tasks": [], "taskinfo": {}, "active": False, "gen": 0}
 
 
 def emit(*a):
     loop = STATE["loop"]
     LOG.append((int(loop.time()), loop.iterations) + a)
+
+
+def emitj(obj, *a):
+    """emit on behalf of a job / scheduler object: ignored when the object belongs to an earlier scenario
+    (an orphan coroutine being closed by the garbage collector)"""
+    if STATE["active"] and getattr(obj, "gen", None) == STATE.get("gen"):
+        emit(*a)
 
 
 class Hang(Exception):
@@ -50,13 +58,14 @@ class VLoop(asyncio.SelectorEventLoop):
         self.iterations = 0
         self.on_quiet = None
         self.horizon_iters = horizon_iters
+        self.cleanup = False
 
     def time(self):
         return self._vt
 
     def _run_once(self):
         self.iterations += 1
-        if self.iterations > self.horizon_iters:
+        if self.iterations > self.horizon_iters and not self.cleanup:
             raise Hang("livelock")
         while self._scheduled and self._scheduled[0]._cancelled:
             h = heapq.heappop(self._scheduled)
@@ -69,6 +78,8 @@ class VLoop(asyncio.SelectorEventLoop):
                 w = self._scheduled[0]._when
                 if w > self._vt:
                     self._vt = w
+            elif self.cleanup:
+                self.stop()
             else:
                 raise Hang("deadlock")
         super()._run_once()
@@ -165,7 +176,7 @@ class Boom(Exception):
 
 async def body(job):
     spec = job.spec
-    emit("begin", job.name)
+    emitj(job, "begin", job.name)
     try:
         if spec["d"] is None:
             await asyncio.Event().wait()
@@ -174,29 +185,29 @@ async def body(job):
         for _ in range(spec.get("k", 0)):
             await asyncio.sleep(0)
     except asyncio.CancelledError:
-        emit("cseen", job.name)
+        emitj(job, "cseen", job.name)
         if spec.get("ch"):
             await asyncio.sleep(spec["ch"])
-        emit("cdone", job.name)
+        emitj(job, "cdone", job.name)
         raise
     if spec.get("exc"):
         job.exc_obj = Boom(job.name)
-        emit("raise", job.name)
+        emitj(job, "raise", job.name)
         raise job.exc_obj
     job.ret_obj = ("result-of", job.name)
-    emit("end", job.name)
+    emitj(job, "end", job.name)
     return job.ret_obj
 
 
 async def handler(job):
-    emit("sdb", job.name)
+    emitj(job, "sdb", job.name)
     try:
         if job.spec.get("sd"):
             await asyncio.sleep(job.spec["sd"])
     except asyncio.CancelledError:
-        emit("sdc", job.name)
+        emitj(job, "sdc", job.name)
         raise
-    emit("sde", job.name)
+    emitj(job, "sde", job.name)
 
 
 class VJob(AbstractJob):
@@ -206,6 +217,7 @@ class VJob(AbstractJob):
         self.h = spec.get("h", 0)
         self.exc_obj = None
         self.ret_obj = None
+        self.gen = STATE["gen"]
         STATE["jobs"][name] = self
         super().__init__(label=name, critical=spec["crit"], forever=spec["forever"])
 
@@ -231,6 +243,7 @@ class VCoJob(Job):
         self.h = spec.get("h", 0)
         self.exc_obj = None
         self.ret_obj = None
+        self.gen = STATE["gen"]
         STATE["jobs"][name] = self
         super().__init__(body(self), coshutdown=handler(self), label=name, critical=spec["crit"], forever=spec["forever"])
 
@@ -252,6 +265,7 @@ def mksched(base):
             self.name = name
             self.spec = spec
             self.h = spec.get("h", 0)
+            self.gen = STATE["gen"]
             STATE["jobs"][name] = self
             kw = dict(jobs_window=spec.get("w"), timeout=spec.get("T"), shutdown_timeout=spec.get("sdT", 1),
                       verbose=spec.get("verbose", False))
@@ -266,37 +280,41 @@ def mksched(base):
             return self is o
 
         async def co_run(self):
-            tok = CUR.set(self.name)
-            emit("rbegin", self.name)
+            old = CUR.get()
+            CUR.set(self.name)
+            emitj(self, "rbegin", self.name)
             try:
                 r = await super().co_run()
-                emit("rret", self.name, r)
+                emitj(self, "rret", self.name, r)
                 return r
             except asyncio.CancelledError:
-                emit("rcancel", self.name)
+                emitj(self, "rcancel", self.name)
                 raise
-            except Hang:
+            except (Hang, GeneratorExit):
                 raise
             except BaseException as e:                      # noqa
-                emit("rraise", self.name, exc_id(e))
+                emitj(self, "rraise", self.name, exc_id(e))
                 raise
             finally:
-                CUR.reset(tok)
+                CUR.set(old)
 
         async def co_shutdown(self):
-            tok = CUR.set(self.name)
-            tok2 = CUR_PHASE.set("sd")
-            emit("sdcall", self.name)
+            old, oldp = CUR.get(), CUR_PHASE.get()
+            CUR.set(self.name)
+            CUR_PHASE.set("sd")
+            emitj(self, "sdcall", self.name)
             try:
                 r = await super().co_shutdown()
-                emit("sdret", self.name, r)
+                emitj(self, "sdret", self.name, r)
                 return r
+            except GeneratorExit:
+                raise
             except BaseException:                           # noqa
-                emit("sdexc", self.name)
+                emitj(self, "sdexc", self.name)
                 raise
             finally:
-                CUR_PHASE.reset(tok2)
-                CUR.reset(tok)
+                CUR_PHASE.set(oldp)
+                CUR.set(old)
     return V
 
 
@@ -310,7 +328,11 @@ def exc_id(e):
         if getattr(j, "exc_obj", None) is e:
             return "job:" + n
     if isinstance(e, TimeoutError):
-        return "timeout:" + str(STATE.get("timeout_ids", {}).get(id(e), "?"))
+        ids = STATE["timeout_ids"]
+        if id(e) not in ids:
+            # first sighting: the innermost scheduler whose co_run raised it
+            ids[id(e)] = (CUR.get(), e)          # keep the object alive: ids are not reused
+        return "timeout:" + str(ids[id(e)][0])
     return "other:%s:%s" % (type(e).__name__, e)
 
 
@@ -376,6 +398,7 @@ def snapshot():
 def run(sc, linger=None, shutdown_again=True):
     """run one scenario on the real library; returns (res, trace)"""
     LOG.clear()
+    STATE["gen"] += 1
     STATE["jobs"] = {}
     STATE["tasks"] = []
     STATE["taskinfo"] = {}
@@ -430,11 +453,27 @@ def run(sc, linger=None, shutdown_again=True):
         asyncio.wait = _orig_wait
         asyncio.Queue = asyncio.queues.Queue
         try:
-            for t in STATE["tasks"]:
-                if not t.done():
+            # leave no orphan behind: cancel what is left and let it unwind
+            loop.cleanup = True
+            loop.on_quiet = None
+            for _ in range(5):
+                left = [t for t in STATE["tasks"] if not t.done()]
+                if not left:
+                    break
+                for t in left:
                     t.cancel()
-            if "hang" not in res:
-                loop.run_until_complete(asyncio.sleep(0))
+                try:
+                    loop.run_until_complete(asyncio.wait(left, timeout=50))
+                except BaseException:                       # noqa
+                    break
+            for j in STATE["jobs"].values():
+                for att in ("corun", "coshutdown"):
+                    co = getattr(j, att, None)
+                    if co is not None and hasattr(co, "close"):
+                        try:
+                            co.close()
+                        except BaseException:               # noqa
+                            pass
         except BaseException:                               # noqa
             pass
         try:
